@@ -147,6 +147,33 @@ CHECKS = {
          "every commonly predicted timestamp, hourly rows must all be predicted, and an alteration must not turn the run into an exception.",
          "Gap patterns the data class itself refuses are counted (alterations_refused_by_data_class), not judged.",
          "DESIGN.md section 6, C05"),
+ "C03": ("model_checking",
+         "explicit-state BFS over histories of library use, each replayed in a fresh interpreter, state = process-global fingerprint; all interleavings of 2-3 threads' public calls under a baton scheduler; concurrent processes on a shared cold/warm JIT cache",
+         "S: histories over the alphabet {fits of daily/hourly/billing meters A and B, fit+predict+round-trip, an unseeded hourly fit, building custom "
+         "settings objects, mutating the lists a settings object hands out, np.random.seed/rand, import order} are run in fresh interpreters to "
+         "depth 2 (thorough 3, last level: core fits); after every operation the process-global fingerprint (module-level containers, mutable "
+         "defaults, pydantic field defaults, numpy RNG, sklearn config, numba signatures, BLAS/OMP env) identifies the state; every fit anywhere "
+         "must give the document and predictions of that fit alone in a fresh process (itself run twice). T: every interleaving of the public "
+         "calls of 2-3 real threads. P: 8 (thorough 1-16) concurrent processes sharing a cold then warm numba cache. E: thread-count environments.",
+         "Call-granularity interleavings only (inside a fit: one free-running execution, reported separately); C-level state seen through outputs only.",
+         "DESIGN.md section 6, C03"),
+ "C08": ("exploration",
+         "deviation-bounded enumeration of billing calendars (period lengths at every off-cycle threshold, every position, DST alignments) and of sub-daily readings with runs of missing readings at every offset; exact-arithmetic reference",
+         "Billing: four base calendars x <=1 (thorough <=2) periods replaced by each of {1,10,24,25,35,36,45,70,71,90} days at every position x zones x "
+         "three entry points x temperature feeds, plus every alignment of the reads with the DST dates. Sub-daily: 15/30/60-minute and daily "
+         "readings over local days containing the DST day x runs of {1,2,half-1,half,half+1,full day} missing readings (NaN and absent rows) at "
+         "every start on a 1-hour lattice. Oracle (refmodels/intervals.py, Fractions over integer minutes): valid periods sum to the bill, off-cycle "
+         "periods dropped, no usage elsewhere; fully covered day == sum of readings, >1/2 scaled by 1/coverage, <=1/2 missing.",
+         "Threshold lengths containing a DST change accept kept or dropped; absent-row gaps accept either documented reading.",
+         "DESIGN.md section 6, C08"),
+ "C09": ("exploration",
+         "deviation-bounded enumeration of temperature feeds (hourly/half-hourly, zone offsets) x meters x entry points x NaN runs at every offset; exact per-meter-day reference",
+         "Feeds {hourly, half-hourly} in zones offset from the meter by whole sampling intervals x meters {daily at midnight, daily at 06:00, hourly, "
+         "billing} x entry points x a 6-day window containing a DST day x <=1 (thorough <=2) NaN runs of {1,6,11,12,13,23,24} hours at every "
+         "offset. Oracle (refmodels/tempday.py): day temperature == mean of the present readings of the meter day, missing when half or fewer are "
+         "present, per-day present/absent counts exact (read through the class's own _set_data).",
+         "Feed covers the meter span plus a day on each side.",
+         "DESIGN.md section 6, C09"),
 }
 
 NOT_YET = {}
